@@ -417,11 +417,43 @@ def inittoken_rng_faults(ctx, backend):
     except AssertionError as e: ctx.inconc(f'C_InitToken RNG-fault lane could not run ({backend}): {e!r}')
     except Hang: ctx.inconc(f'hang in the C_InitToken RNG-fault lane ({backend})')
 
+def reinit_repeatedly(ctx, backend):
+    """directed: one process re-initialises the same token four times in a row (objects and a user PIN in between, a second token untouched beside it): every re-initialisation with the
+    right SO PIN and no session succeeds, removes the objects and the user PIN, keeps the SO PIN; the neighbour token keeps everything"""
+    ck = ctx.ck; d = ctx.dir('c14rr'); x = ctx.new_exec('asan', d, backend); SO, U = b'so-pin-14r', b'user-pin-14r'
+    try:
+        assert x.call('C_Initialize', locking='os')['rv'] == 0
+        slots = []
+        for lab in (b'A', b'B'):
+            x.call('C_GetSlotList', null=True); free = x.call('C_GetSlotList', count=16)['slots'][-1]; assert x.call('C_InitToken', slot=free, pin=SO.hex(), label=lab.hex())['rv'] == 0; slots.append(free)
+            s = x.call('C_OpenSession', slot=free)['h']; assert x.call('C_Login', s=s, user=0, pin=SO.hex())['rv'] == 0 and x.call('C_InitPIN', s=s, pin=U.hex())['rv'] == 0 and x.call('C_Logout', s=s)['rv'] == 0
+            assert x.call('C_Login', s=s, user=1, pin=U.hex())['rv'] == 0
+            for i in range(3): assert x.call('C_CreateObject', s=s, tmpl=x.T({'CKA_CLASS': ck.CKO_DATA, 'CKA_TOKEN': True, 'CKA_PRIVATE': bool(i % 2), 'CKA_LABEL': lab + b'-%d' % i, 'CKA_VALUE': b'v'}))['rv'] == 0
+            x.call('C_CloseAllSessions', slot=free)
+        A, B = slots
+        for rnd_ in range(4):
+            r = x.call('C_InitToken', slot=A, pin=SO.hex(), label=('A%d' % rnd_).encode().hex())
+            w = dict(backend=backend, round=rnd_, rv=r['rvname'])
+            if r['rv'] != 0: ctx.violation(f'C_InitToken|re-init-number-{min(rnd_ + 1, 2)}-in-one-process,{backend}|right-pin,no-session|refused', 'a re-initialisation with the right SO PIN and no open session was refused (the same token had been re-initialised in this process before)' if rnd_ else 'a re-initialisation with the right SO PIN and no open session was refused', w); break
+            s = x.call('C_OpenSession', slot=A)['h']; lo = x.call('C_Login', s=s, user=0, pin=SO.hex())['rvname']; n = len(x.findall(s, {})[1])
+            if lo != 'CKR_OK' or n: ctx.violation(f'C_InitToken|re-init-number-{min(rnd_ + 1, 2)}-in-one-process,{backend}|objects-or-so-pin-wrong-afterwards', 'after a re-initialisation the SO PIN does not log in or objects of the token are still found', dict(w, so_login=lo, objects=n))
+            assert x.call('C_InitPIN', s=s, pin=U.hex())['rv'] == 0; x.call('C_Logout', s=s); assert x.call('C_Login', s=s, user=1, pin=U.hex())['rv'] == 0
+            for i in range(2): x.call('C_CreateObject', s=s, tmpl=x.T({'CKA_CLASS': ck.CKO_DATA, 'CKA_TOKEN': True, 'CKA_PRIVATE': bool(i), 'CKA_LABEL': b'again-%d-%d' % (rnd_, i), 'CKA_VALUE': b'v'}))
+            x.call('C_CloseAllSessions', slot=A)
+            sb = x.call('C_OpenSession', slot=B)['h']; lb = x.call('C_Login', s=sb, user=1, pin=U.hex())['rvname']; nb = len(x.findall(sb, {})[1]); x.call('C_CloseAllSessions', slot=B)
+            if lb != 'CKR_OK' or nb != 3: ctx.violation(f'C_InitToken|re-init-of-the-neighbour-token,{backend}|other-token-changed', 'after token A was re-initialised, token B lost objects or its user PIN', dict(w, user_login_B=lb, objects_B=nb))
+            ctx.case(('reinit-repeatedly', backend, rnd_))
+        x.call('C_Finalize')
+    except AssertionError as e: ctx.inconc(f'reinit-repeatedly could not run ({backend}): {e!r}')
+    except Died as e: ctx.observe('side:C17 library terminated the host', {'kind': e.kind(), 'fn': e.fn}); ctx.inconc(f'executor died in reinit-repeatedly ({backend})')
+    except Hang: ctx.inconc(f'hang in reinit-repeatedly ({backend})')
+    finally: x.kill() if x.p.poll() is None else None
+
 def run(ctx):
     ctx.need('asan')
     for be in ('file', 'db'): reinit_two_process(ctx, be)
     for be in ('file', 'db'): noninterference(ctx, be)
-    for be in ('file', 'db'): inittoken_faults(ctx, be); inittoken_races(ctx, be); reconfigured_tokendir(ctx, be); reinit_after_wrong_user_login(ctx, be); inittoken_rng_faults(ctx, be)
+    for be in ('file', 'db'): inittoken_faults(ctx, be); inittoken_races(ctx, be); reconfigured_tokendir(ctx, be); reinit_after_wrong_user_login(ctx, be); inittoken_rng_faults(ctx, be); reinit_repeatedly(ctx, be)
     ctx.rule = ('histories over 2-4 tokens: C_InitToken (fresh on the free slot / re-init, right / wrong SO PIN, with / without sessions), softhsm2-util --init-token / --delete-token of the same build as another actor, '
                 'object and PIN operations, C_Finalize/C_Initialize and new-process restarts (40 % of them after stray non-token entries were put into the token directory); after every call every OTHER token is probed (session states, visible object set, an attribute) against the model, '
                 'after every restart every token must be found again under slot = last 8 hex digits of the serial & 0x7fffffff with label/flags unchanged, and quiescent audits log in with both PINs and compare all objects; '
